@@ -10,8 +10,8 @@ from . import core, world_store as ws
 from .driver import CheckRun, scaled
 
 WORLD = "world_store"
-N_SCEN = 20000  # fixed scenario grid per property: indices 0..N_SCEN-1
-SIZES = {"quick": 2500, "thorough": 16000}
+N_SCEN = 8000  # fixed scenario grid per property: indices 0..N_SCEN-1
+SIZES = {"quick": 2500, "thorough": 8000}   # thorough = the whole grid
 
 ASSUMPTIONS = [
     "store model of sim/world_store.py written from the documentation: first "
